@@ -10,7 +10,7 @@ Not decided: that call_later(t) fires after t seconds (asyncio contract), clock 
 """
 from __future__ import annotations
 
-from .ordering import Ctx, arming, atomic_notifications, cancel_on_removal, expiry_once
+from .ordering import Ctx, arming, atomic_notifications, cancel_on_removal, every_removal_reported, expiry_once
 
 
 def check(run, prog, tier):
@@ -29,4 +29,5 @@ def check(run, prog, tier):
     cancel_on_removal(cx, "T1")
     arming(cx, "T2")
     expiry_once(cx, "T3")
+    every_removal_reported(cx, "T3")
     atomic_notifications(cx, "A1", "expired")
